@@ -74,7 +74,17 @@ Clause(r) ==
   ELSE IF r.idem.ran /\ r.idem.sameenc /\ ~r.idem.samebytes THEN "second-no-op-mutate-changed-bytes"
   ELSE ""
 
+(* "detect" records: the same path opened again on the same filesystem object after its content changed *)
+DetectClause(r) ==
+  LET det == Detected(r.tried, [e \in {r.tried[k] : k \in DOMAIN r.tried} |-> IF r.dec[e] = 0 THEN NoText ELSE "t"]) IN
+  IF det = NoName THEN (IF r.exc = "UnicodeDecodeError" THEN "" ELSE "no-encoding-decodes-but-no-UnicodeDecodeError")
+  ELSE IF r.exc # "" THEN "open-raised"
+  ELSE IF r.got # det THEN "detected-encoding-after-content-change"
+  ELSE IF ~r.sametext THEN "loaded-text-is-not-the-decoded-content"
+  ELSE ""
+ClauseOf(r) == IF r.kind = "detect" THEN DetectClause(r) ELSE Clause(r)
+
 Init == i = 1
-Next == i <= N /\ PrintT(ToJson([id |-> Recs[i].id, clause |-> Clause(Recs[i])])) /\ i' = i + 1
+Next == i <= N /\ PrintT(ToJson([id |-> Recs[i].id, clause |-> ClauseOf(Recs[i])])) /\ i' = i + 1
 Spec == Init /\ [][Next]_i
 =============================================================================
